@@ -227,6 +227,22 @@ def h_fetch_app(eng, case):
     script = []                      # per request: ('data',) | ('nack', reason) | ('silence',)
     reqs = []
 
+    def lp(frag, nack_reason=None):
+        # link-layer envelope as a forwarder with link reliability writes it: Sequence header (type 0x51, which the
+        # library does not model: an unknown header to ignore), optional Nack header, Fragment
+        from . import modelgen as mg
+        body = [0x51, 8] + [0, 0, 0, 0, 0, 0, 0, 7]
+        if nack_reason is not None:
+            body += [0xFD, 0x03, 0x20, 5, 0xFD, 0x03, 0x21, 1, nack_reason]
+        body += mg.w_tlv(0x50, blist(frag))
+        return bytes(mg.w_tlv(0x64, body))
+
+    async def deliver_data(d):
+        if case.get('lp'):
+            await app._receive(0x64, lp(d))
+        else:
+            await app._receive(6, d)
+
     async def forwarder():
         seen = 0
         while True:
@@ -246,17 +262,22 @@ def h_fetch_app(eng, case):
                 if sel == 0 and N is None:
                     # an unsegmented object published under exactly the requested name
                     script.append(('data',))
-                    await app._receive(6, bytes(enc.make_data('/obj', enc.MetaInfo(), b'whole')))
+                    await deliver_data(bytes(enc.make_data('/obj', enc.MetaInfo(), b'whole')))
                 elif sel == 0 and seg < N:
                     script.append(('data',))
                     fb = Component.from_segment(N - 1)
                     d = enc.make_data(Name.from_str('/obj') + [Component.from_segment(seg)],
                                       enc.MetaInfo(final_block_id=fb), b'seg%d' % seg)
-                    await app._receive(6, bytes(d))
+                    await deliver_data(bytes(d))
                 elif sel == 1:
-                    reason = eng.int('reason', 0, 2 ** 64 - 1)
-                    script.append(('nack', reason))
-                    await app._receive(0x64, enc.make_network_nack(wire, reason))
+                    if case.get('lp'):
+                        reason = eng.int('reason', 0, 255)
+                        script.append(('nack', reason))
+                        await app._receive(0x64, lp(wire, as_int(reason)))
+                    else:
+                        reason = eng.int('reason', 0, 2 ** 64 - 1)
+                        script.append(('nack', reason))
+                        await app._receive(0x64, enc.make_network_nack(wire, reason))
                 else:
                     script.append(('silence',))
 
@@ -369,4 +390,5 @@ def cases(tier, seed):
         cs.append(('fetch_app', {'N': N, 'retry': retry}, {'weight': 3 ** (N + retry), 'split_depth': 3}))
     cs.append(('fetch_app', {'N': 2, 'retry': 1, 'validator': 'rejecting-object'}, {'weight': 9}))
     cs.append(('fetch_app', {'N': None, 'retry': 2}, {'weight': 9}))
+    cs.append(('fetch_app', {'N': 2, 'retry': 1, 'lp': True}, {'weight': 9}))
     return cs
